@@ -36,6 +36,7 @@ FUNCTIONS = [
     "pyxel.observation.misc:CustomMode._custom_parameters",
     "pyxel.observation.misc:CustomMode.get_parameters_item",
     "pyxel.observation.misc:CustomMode.create_params",
+    "pyxel.observation.misc:CustomMode.build",
     "pyxel.observation.misc:convert_custom_data",
     "pyxel.observation.observation:_get_short_dimension_names_new",
     "pyxel.observation.observation:Observation.validate_steps",
